@@ -267,6 +267,7 @@ var Faults = map[string][]syscall.Errno{
 	"link":     {syscall.EXDEV, syscall.EPERM},
 	"stat":     {syscall.EACCES},
 	"lstat":    {syscall.EACCES},
+	"fstat":    {syscall.EIO},
 	"truncate": {syscall.EIO},
 }
 
@@ -633,6 +634,14 @@ func (fl *File) Truncate(size int64) error {
 }
 
 func (fl *File) Stat() (fs.FileInfo, error) {
+	if fl == nil {
+		return nil, os.ErrInvalid
+	}
+	_, c, fault := fl.fs.call("fstat", fl.name, "")
+	if fault != nil {
+		c.Err = fault.Errno.Error()
+		return nil, pathErr("stat", fl.name, fault.Errno)
+	}
 	return &info{n: fl.n, name: path.Base(fl.name)}, nil
 }
 
